@@ -29,7 +29,8 @@ func epsSM2() []*epT {
 		})
 	}
 	nistSig := func(name string) seedT {
-		return S(name, func() []byte { return must(sm2.SignASN1(detRand(name), kr.NISTasSM2(), hash, nil)) })
+		// embedded: the signer (not the verifier) of this path cannot run under -tags purego, see gen.go
+		return S(name, func() []byte { return unhex(sm2SigNISTHex) })
 	}
 	enc := func(name string, key func() *ecdsa.PublicKey, msg []byte, opts func() *sm2.EncrypterOpts) seedT {
 		return S(name, func() []byte {
